@@ -6,7 +6,7 @@ _STACKS = [('w_stack', {'stack': 'thrift'}, 1.0), ('w_stack', {'stack': 'mux'}, 
 PLANS = {
   'C01': _STACKS + [('w_stack', {'stack': 'mux', 'focus': 'burst'}, 0.1), ('w_stack', {'stack': 'thrift', 'focus': 'burst'}, 0.1)],
   'C02': _STACKS + [('w_stack', {'stack': 'mux', 'focus': 'burst'}, 0.15), ('w_stack', {'stack': 'thrift', 'focus': 'burst'}, 0.1)],
-  'C12': _STACKS,
+  'C12': _STACKS + [('w_kafka', {}, 0.2)],
   'C14': [('w_stack', {'stack': 'thrift'}, 2.0), ('w_stack', {'stack': 'mux'}, 1.0)],
   'C18': _STACKS + [('w_varz', {}, 1.0)],
   'C13': [('w_stack', {'stack': 'mux'}, 1.0)],
